@@ -78,6 +78,9 @@ func (sc *Scenario) Desc() string {
 		if p.Shape.NoEKU {
 			b.WriteString(" noeku")
 		}
+		if p.Shape.CDPGrouped {
+			b.WriteString(" cdp-grouped")
+		}
 	}
 	return b.String()
 }
@@ -164,7 +167,7 @@ func Scribble(rs []*result.CertRevocationResult) {
 
 // IsHTTPKind reports whether a URL kind is served over the simulated network.
 func IsHTTPKind(k string) bool {
-	return k == "http" || k == "HTTP" || k == "httpq" || k == "httpc" || k == "same" || k == "httph"
+	return k == "http" || k == "HTTP" || k == "httpq" || k == "httpc" || k == "same" || k == "httph" || k == "httpoq"
 }
 
 // Outcome is everything observed from one execution.
